@@ -88,8 +88,8 @@ func runSeq(h *c06.History) (kit.Case, error) {
 	if writesBigValue(h) {
 		tags["big-value"] = true
 	}
-	if markDoesNotFit(h, cachedOuts, plain) {
-		tags["F26b:mark-does-not-fit-the-cache"] = true
+	if usesLongKey(h) {
+		tags["key-around-mark-limit"] = true
 	}
 	var tl []string
 	for t := range tags {
@@ -170,28 +170,13 @@ func writesBigValue(h *c06.History) bool {
 	return false
 }
 
-// markDoesNotFit recognises finding F26b by what was observed: the first output that differs between the
-// cached and the uncached instance belongs to a point read of a key whose concatenation pKey ++ cCols has
-// exactly chunkSize - 5 = 65531 bytes (the one length at which fastcache stores "known missing" and
-// ignores the one-byte mark)
-func markDoesNotFit(h *c06.History, cached, plain []string) bool {
-	const edge = cacheMaxEntry - 1
-	for j := range cached {
-		if cached[j] == plain[j] {
-			continue
+// usesLongKey: some point operation addresses a key whose concatenation pKey ++ cCols is within two bytes
+// of the length under which the cache mark stops fitting
+func usesLongKey(h *c06.History) bool {
+	for _, o := range h.Ops {
+		if n := len(c06.Unhex(o.PK)) + len(c06.Unhex(o.CC)); n >= cacheMaxEntry-3 && n <= cacheMaxEntry+1 {
+			return true
 		}
-		o := h.Ops[j]
-		switch o.Op {
-		case "Get", "TTLGet":
-			return len(c06.Unhex(o.PK))+len(c06.Unhex(o.CC)) == edge
-		case "GetBatch":
-			for _, c := range o.CCs {
-				if len(c06.Unhex(o.PK))+len(c06.Unhex(c)) == edge {
-					return true
-				}
-			}
-		}
-		return false
 	}
 	return false
 }
